@@ -229,11 +229,11 @@ def c08_miri(pid, tier, seed, work):
     base = (seed * 1000) % 1000000
     # (workers, tasks, lifecycle script index, preemption rate)
     configs = [
-        (2, "rprz", 0, "0.1"), (3, "rpqz", 1, "0.1"), (1, "ppr", 2, "0.5"), (2, "pry", 3, "0.01"),
+        (2, "rprz", 0, "0.1"), (3, "rpqz", 1, "0.1"), (1, "ppr", 2, "0.5"), (2, "pry", 3, "0.01"), (2, "rprp", 6, "0.1"),
     ]
     if thorough:
         configs += [(1, "pprp", 0, "0.5"), (3, "qrsp", 2, "0.1"), (2, "rrrr", 1, "0.5"), (3, "pppp", 0, "0.1"),
-                    (2, "", 5, "0.1"), (1, "", 4, "0.1"), (3, "zpzp", 3, "0.5"), (2, "qq", 2, "0.01")]
+                    (2, "", 5, "0.1"), (1, "", 4, "0.1"), (3, "zpzp", 3, "0.5"), (2, "qq", 2, "0.01"), (3, "prpr", 7, "0.1"), (1, "pp", 6, "0.5")]
 
     def one(cfg):
         n, tasks, script, rate = cfg
